@@ -1,6 +1,7 @@
 package main
 
 import (
+	"fmt"
 	. "verifharness/hlib"
 )
 
@@ -9,16 +10,22 @@ import (
 // repaired defect shows up as "no longer fails".
 var c07KnownWitnesses = []c07Case{
 	{Check: "behav", Prog: OptProg{Stages: []string{"where a"}}, Input: []string{"{a:1,b:2}", "{a:true,b:2}"}},
-	{Check: "behav", Prog: OptProg{Stages: []string{"fork (=> pass => pass)", "sort -r a"}}, Input: []string{"{a:1}", "{a:3}", "{a:2}"}},
-	{Check: "behav", Prog: OptProg{Stages: []string{"fork (=> pass => pass)", "sort -nulls first a"}}, Input: []string{"{a:1}", "{a:null}", "{a:2}"}},
-	{Check: "behav", Prog: OptProg{Stages: []string{"fork (=> pass => pass)", "sort a desc"}}, Input: []string{"{a:1}", "{a:null}", "{a:2}"}},
 	{Check: "behav", Prog: OptProg{Stages: []string{"fork (=> pass => pass)", "put n:=count()"}}, Input: []string{"{a:1}", "{a:1}"}, Force: "bag"},
 	{Check: "behav", Prog: OptProg{Stages: []string{"put x:=1", "where a", "where b==2"}}, Input: []string{"{a:1,b:2}"}},
 	{Check: "behav", Prog: OptProg{Stages: []string{"fork (=> fork (=> pass => pass) | where a==1 => pass)", "join on a=a"}}, Input: []string{"{a:1}"}},
-	{Check: "behav", Prog: OptProg{Stages: []string{"fork (=> pass => pass)", "where a==1", "fork (=> pass => pass)", "where b==2"}}, Input: []string{"{a:1,b:2}"}},
+	{Check: "behav", Prog: OptProg{Stages: []string{"fork (=> pass => pass)", "count() by k"}}, Input: []string{"{k:1}", "{k:2}"}, SortKey: "k:asc"},
 }
 
 func c07Known(c *Ctx, l *TLake) {
+	if c.Thorough() {
+		// costs the long timeout: a fork whose legs a join pulls unevenly deadlocks beyond one batch
+		var vals []string
+		for i := 0; i < 130; i++ {
+			vals = append(vals, fmt.Sprintf("{k:%d,a:%d}", i, i))
+		}
+		cs := c07Case{Check: "behav", Prog: OptProg{Stages: []string{"fork (=> pass => sort a)", "join on k=a"}}, Input: vals, SortKey: "k:asc"}
+		cs.check(c, l)
+	}
 	for i := range c07KnownWitnesses {
 		cs := c07KnownWitnesses[i]
 		before := len(c.Res.Failures)
